@@ -121,7 +121,7 @@ Checks(o) ==
        \* may have grown; nothing at or above the head is touched; files are created only below rb or in range
        (LET F == {e.frame[i] : i \in 1..Len(e.frame)}
             out == {f \in F : f.c < e.rb \/ f.c > e.re}
-            grown == {f \in out : f.after > f.before}
+            grown == {f \in out : f.c < e.head /\ f.after > f.before}    \* (the file receiving appends is judged below)
         IN IF e.res # "ok" \/ e.second \/ e.concurrent THEN {}
            ELSE IF /\ \A f \in out : f.same /\ f.after >= f.before
                    /\ Cardinality(grown) <= 1 /\ (\A f \in grown : f.c < e.rb)
